@@ -60,7 +60,7 @@ PROPS["C02"] = {
     "rule": ("Scenario as C01 with fetch outcomes from {cacheable, uncacheable, 5xx, transport error, upstream body abort (= handler panic), hang until the location's proxy timeout}, "
              "purges and a memory store. Oracle = quiescence invariant after every op + bubble deadlock detector + every request finished after the drain. "
              "Non-trivial = a waiter of a failed/uncacheable fetch existed OR a waiter was parked between registering and waiting when its fetch ended."),
-    "assumptions": _SIM_ASSUME + ["a scenario that does not become quiescent within 90 s of real time (cases take milliseconds) is reported as a lock-involving deadlock"],
+    "assumptions": _SIM_ASSUME + ["a scenario that does not become quiescent within 40 s of real time (cases take milliseconds) is reported as a lock-involving deadlock"],
     "jobs": [_sim("TestC02", 1500, 40000)],
 }
 PROPS["C03"] = {
@@ -84,9 +84,11 @@ PROPS["C06"] = {
     "level": "exploration",
     "rule": ("Scenario = 4-40 adversarial keys (paths differing by one byte/trailing slash/case, query order, same URI on several hosts, GET/HEAD twins) on caches of size 8/16/24 so that shards collide and evict, "
              "mixed request order, completions, purges. Oracle = every delivered response echoes the client's own (method, host, request-URI) and carries the serial of its own fetch or of the key's stored response. "
-             "Non-trivial = at least one eviction and at least one hit or waiter."),
-    "assumptions": _SIM_ASSUME + ["free-running concurrency on the same key sets is covered by the C20 workload under the race detector"],
-    "jobs": [_sim("TestC06", 1000, 30000)],
+             "Non-trivial = at least one eviction and at least one hit or waiter. TestC06Concurrent (real goroutines): 2-12 near-identical keys forced into 1-2 LRU shards of a cache of 16..51200 entries, "
+             "4-16 goroutines looking them up for 30-120 ms (get-or-create, Get, store on fetch), optional concurrent purger: every hit must carry the response stored for the key that was asked for. evaluations counts lookups."),
+    "assumptions": _SIM_ASSUME + ["the dispatcher's lookup has no yield point; it is exercised statistically by TestC06Concurrent and by the C20 workload under the race detector"],
+    "jobs": [_sim("TestC06", 1000, 30000),
+             {"engine": "unit", "test": "TestC06Concurrent", "quick": {"shards": 8, "checks": 20, "timeout": 400, "shrinktime": "5s"}, "thorough": {"shards": 16, "checks": 600, "timeout": 3400, "shrinktime": "20s"}}],
 }
 PROPS["C07"] = {
     "level": "exploration",
